@@ -6,6 +6,7 @@ import (
 	"io"
 	"strings"
 	"testing"
+	"testing/fstest"
 
 	"github.com/uhn/ggql/pkg/ggql"
 	"pgregory.net/rapid"
@@ -56,6 +57,9 @@ type c14Step struct {
 	FaultAt int    `json:"fault_at,omitempty"` // reader fault offset (class reader-fault)
 	Mode    int    `json:"mode,omitempty"`
 	Dup     string `json:"dup,omitempty"` // addtypes-fail: name of an existing type added again
+	// Second (parsefs-fail): Text and Second are two files read by one ParseFS call with a pattern
+	// each; Second holds what makes the call fail
+	Second string `json:"second,omitempty"`
 }
 
 type c14Case struct {
@@ -121,6 +125,9 @@ func doLoad(root *ggql.Root, st c14Step) (err error, pan interface{}) {
 		}
 	}()
 	switch st.Kind {
+	case "parsefs-fail":
+		fsys := fstest.MapFS{"a-first.graphql": {Data: []byte(st.Text)}, "b-second.graphql": {Data: []byte(st.Second)}, "c.txt": {Data: []byte("type")}}
+		err = root.ParseFS(fsys, "a-*.graphql", "b-*.graphql")
 	case "addtypes-fail":
 		switch st.Mode {
 		case 1:
@@ -523,6 +530,10 @@ func genCaseC14(t *rapid.T) *c14Case {
 		}
 		if class == "syntax" && pos == 0 {
 			st.Text = valid + bad + "\n" // a syntax error first would stop the scan before anything is touched
+		}
+		if (class == "syntax" || class == "undefined-reference" || class == "validation-rule" || class == "duplicate-type") && valid != "" && rapid.IntRange(0, 2).Draw(t, lab+"asFiles") == 0 {
+			// the valid part and the failing part as two files, read by one ParseFS call with a pattern each
+			st.Kind, st.Text, st.Second = "parsefs-fail", valid, bad+"\n"
 		}
 		c.Steps = append(c.Steps, st)
 		if len(ex) > 0 && rapid.IntRange(0, 5).Draw(t, lab+"addtypes") == 0 {
